@@ -134,3 +134,60 @@ def jobs(tier, seed):
 
 
 harness("C02.index", jobs, sym, conc, "ra[rows(, cols)] for the whole selector grid")
+
+
+# ------------------------------------------------------------------ the same index forms applied to a lazily selected array
+def _view_ops():
+    from . import programs
+    return {k: (lambda d, P, k=k: programs.probe(d, k, P)) for k in ("elem", "rowint", "colint", "rowcolint", "colslice", "rowslice", "rowlist", "colrev", "ellipsis")}
+
+
+def sym_onview(E, p, kf):
+    import z3
+    from symx import specs
+    from . import programs
+    from npstructures import RaggedArray
+    R = E.concretize(E.int("R", 0, p["R"]))
+    lens = [E.concretize(E.int(f"l{r}", 0, p["L"])) for r in range(R)]      # shapes forked: the selected rows are computed on plain lists
+    S = sum(lens)
+    data = [E.int(f"d{q}", -DV, DV) for q in range(S)]
+    P = programs.ParamStore(E, B=2)
+    case = dict(p=p, lens=lens, data=data, params=P.values)
+    conc_ = lambda t: (E.branch(t) if z3.is_bool(t) else E.concretize(t)) if z3.is_expr(t) else t
+    op = _view_ops()[p["op"]]
+    od, of, oa = programs.on_view(RaggedArray, lens, data, "int64", p["pre"], lambda d: op(d, P), P, conc=conc_)
+    if od["k"] != of["k"]:
+        return dict(goal=False, got=od, case=case)
+    goal = specs.conj([specs.obs_goal(od, of) if od["k"] != "raise" else True, specs.obs_goal(oa, dict(k="ragged", flat=data, lens=lens, dtype="int64"))])
+    return dict(goal=goal, got=od, case=case)
+
+
+def conc_onview(case):
+    from . import programs
+    from npstructures import RaggedArray
+    p = case["p"]
+    P = programs.ParamStore(None, dict(case["params"]), B=2)
+    op = _view_ops()[p["op"]]
+    od, of, oa = programs.on_view(RaggedArray, case["lens"], case["data"], "int64", p["pre"], lambda d: op(d, P), P)
+    if od["k"] == "raise" and of["k"] == "raise":
+        of = common.refused()
+    return od, of
+
+
+def jobs_onview(tier, seed):
+    from . import programs
+    q = tier == "quick"
+    out = []
+    for op in _view_ops():
+        for pre in programs.VIEW_STEPS:
+            if pre == "rowlist3":
+                heavy = op in ("elem", "rowcolint", "rowlist", "colslice")      # two more symbolic positions on top of the three of the list
+                out.append(dict(R=2 if heavy else 3, L=1 if (q or heavy) else 2, pre=pre, op=op))
+                continue
+            if q and pre in ("colstepm2", "colslice_a") and op not in ("elem", "colint", "colslice"):
+                continue
+            out.append(dict(R=3 if not q or op in ("elem", "rowlist") else 2, L=2 if q else 3, pre=pre, op=op))
+    return [dict(h="C02.onview", p=p) for p in out]
+
+
+harness("C02.onview", jobs_onview, sym_onview, conc_onview)
